@@ -1029,6 +1029,26 @@ func callBuiltin(caller *frame, callpos token.Pos, fn *ssa.Builtin, args []value
 			panic(fmt.Sprintf("cap: illegal operand: %T", x))
 		}
 
+	case "clear":
+		switch x := args[0].(type) {
+		case *hashmap:
+			if x != nil {
+				x.ents = nil
+				x.index = make(map[int][]int)
+				x.length = 0
+			}
+		case []value:
+			if len(x) > 0 {
+				z := zero(fn.Type().(*types.Signature).Params().At(0).Type().Underlying().(*types.Slice).Elem())
+				for i := range x {
+					x[i] = copyVal(z)
+				}
+			}
+		default:
+			panic(fmt.Sprintf("clear: illegal operand: %T", x))
+		}
+		return nil
+
 	case "min":
 		return foldLeft(min, args)
 	case "max":
